@@ -58,8 +58,8 @@ func (eng) Rule(mode string) string {
 		"pipe: real sendOperatorEvent + operator cluster, 1-4 recording operators, keyed placeholders with 0-3 events, watermark and barrier placeholders in random order. " +
 		"loop: real processEvents + sendOperatorEvent + operator cluster, scripted ticker and source reads, key-event batch 1-3, operator batch 2-6 without time-out flush, 1-3 recording operators, ticks interleaved with reads of increasing timestamps; watermark values taken when the batch is delivered. " +
 		"run: real SourceRunner (Start/HandleDeploy/HandleAssignSplits) reading a scripted source to its end through a slow scripted KeyEventBatch, 1-4 recording operators. " +
-		"reg: real TimerRegistry on a real DKV (memory fs), 0-4 configured runners, random interleavings of AdvanceWatermark (known / unknown senders, regressing, nil, pre-epoch, zero-time watermarks) and SetTimer. " +
-		"op: real Operator with a scripted recording handler, batch size 1-3, keyed events carrying timers, watermark messages from several senders and SourceComplete of some runners (one always stays active) after which the others go on reporting, and redeploys of the live operator (HandleDeploy again, mostly the same runners, empty batch) followed by events before the new deployment's first watermark. " +
+		"reg: real TimerRegistry on a real DKV (memory fs), 0-4 configured runners, random interleavings of AdvanceWatermark (known / unknown senders, regressing, nil, pre-epoch, zero-time watermarks; in a third of the cases the consumer stops after 1-2 timers) and SetTimer. " +
+		"op: real Operator with a scripted recording handler, batch size 1-3, keyed events carrying timers, watermark messages from several senders and SourceComplete of some runners (one always stays active) after which the others go on reporting, and redeploys of the live operator (HandleDeploy again, mostly the same runners, empty batch) followed by events before the new deployment's first watermark; the handler FAILS on batches holding an expired timer of key 6 at an even second (stopping the due-timer iterator in the middle of an advance) and the history goes on without a new watermark. " +
 		"Non-trivial: the history contains at least two watermark observations and (reg/op) at least two distinct senders or a fired timer; distinct by hash of the case."
 }
 
@@ -98,6 +98,7 @@ type opJ struct {
 	Key    int    `json:"key,omitempty"`
 	ID     int    `json:"id,omitempty"`
 	Timers []tsJ  `json:"timers,omitempty"`
+	Stop   int     `json:"stop,omitempty"` // radv: the consumer of the due-timer iterator stops after this many timers (0 = drains it)
 	IDs    []int   `json:"ids,omitempty"` // dp: the redeployment's source runner ids (absent = unchanged)
 	Raws   [][]evJ `json:"raws,omitempty"` // run: one ReadEvents batch; each raw event keys into these events
 }
@@ -321,14 +322,26 @@ func genReg(r *hx.Rand, i int) *hx.Case {
 	n := r.Range(1, 28)
 	base := int64(r.Intn(3)) * int64(r.Intn(1000000))
 	spread := r.Range(3, 40)
+	// a third of the cases stop the consumer of the due-timer iterator early now and then (what a handler error in the
+	// middle of an advance does) and go on WITHOUT a new watermark; there timers of different keys never share a
+	// timestamp (which of two equal ones was handed out before the stop is not fixed by the code)
+	withStops := r.Chance(1, 3)
 	var ops []json.RawMessage
 	for k := 0; k < n; k++ {
 		if r.Chance(1, 2) {
+			key := r.Intn(6)
 			t := genTimer(r, base, spread)
-			ops = append(ops, hx.Op(opJ{K: "rset", Key: r.Intn(6), Ts: &t}))
+			if withStops {
+				t.N = t.N - t.N%8 + int32(key)
+			}
+			ops = append(ops, hx.Op(opJ{K: "rset", Key: key, Ts: &t}))
 		} else {
 			t := genWmMsg(r, base, spread)
-			ops = append(ops, hx.Op(opJ{K: "radv", S: genSender(r, ids), Ts: &t}))
+			stop := 0
+			if withStops && r.Chance(1, 2) {
+				stop = r.Range(1, 2)
+			}
+			ops = append(ops, hx.Op(opJ{K: "radv", S: genSender(r, ids), Ts: &t, Stop: stop}))
 		}
 	}
 	return &hx.Case{Name: fmt.Sprintf("reg-%d", i), Params: map[string]any{"mode": "c11", "kind": "reg", "ids": ids}, Ops: ops}
@@ -403,6 +416,9 @@ func genOp(r *hx.Rand, i int) *hx.Case {
 			id++
 			nt := r.Intn(4)
 			key := r.Intn(7)
+			if r.Chance(1, 5) {
+				key = 6 // the key whose expired timers at even seconds make the handler fail
+			}
 			timers := []tsJ{}
 			for j := 0; j < nt; j++ {
 				// Timers of different keys never share a timestamp (nanos = key mod 8): the order in which equal
@@ -410,6 +426,9 @@ func genOp(r *hx.Rand, i int) *hx.Case {
 				// timer is still waiting in the batch - an observable the property does not speak about.
 				t := genTimer(r, base, spread)
 				t.N = t.N - t.N%8 + int32(key)
+				if key == 6 && r.Chance(1, 2) {
+					t.S -= ((t.S % 2) + 2) % 2
+				}
 				timers = append(timers, t)
 			}
 			ops = append(ops, hx.Op(opJ{K: "ev", S: genSender(r, ids), ID: id, Key: key, Timers: timers}))
@@ -1172,14 +1191,24 @@ func execReg(c *hx.Case, ops []opJ) (*hx.Result, error) {
 			last[o.S] = t
 			var fired []string
 			var fobs []any
+			got := 0
 			for k, ft := range reg.AdvanceWatermark(srName(o.S), &workerpb.Watermark{Timestamp: o.Ts.pb()}) {
 				fired = append(fired, fmt.Sprintf("(%s, %s)", hx.CoqZ(ft.UnixNano()), hx.CoqN(keyID(k))))
 				fobs = append(fobs, []any{ft.UnixNano(), string(k)})
 				nfired++
+				got++
+				if o.Stop > 0 && got >= o.Stop {
+					tags["consumer_stopped_early"] = true
+					break // the consumer stops: yield returns false
+				}
 			}
 			w := reg.VerifWatermark()
 			obs = append(obs, map[string]any{"fired": fobs, "wm": []int64{w.Unix(), int64(w.Nanosecond())}})
-			terms = append(terms, fmt.Sprintf("RAdvO %s %s %s %s", hx.CoqN(uint64(o.S)), o.Ts.coq(), hx.CoqList(fired, "Z * N"), coqTime(w)))
+			if o.Stop > 0 {
+				terms = append(terms, fmt.Sprintf("RAdvStopO %s %s %s %s %s", hx.CoqN(uint64(o.S)), o.Ts.coq(), hx.CoqNat(o.Stop), hx.CoqList(fired, "Z * N"), coqTime(w)))
+			} else {
+				terms = append(terms, fmt.Sprintf("RAdvO %s %s %s %s", hx.CoqN(uint64(o.S)), o.Ts.coq(), hx.CoqList(fired, "Z * N"), coqTime(w)))
+			}
 		case "rset":
 			t := o.Ts.pb().AsTime()
 			if t.Unix() < -9223372036 || t.Unix() > 9223372035 {
@@ -1213,6 +1242,7 @@ type recHandler struct {
 	calls []string // Gallina ocall terms since the last drain
 	raw   []any
 	ntimer int
+	nfail  int
 }
 
 func floorMod(x, n int64) int64 { return ((x % n) + n) % n }
@@ -1223,6 +1253,12 @@ func (h *recHandler) ProcessEventBatch(ctx context.Context, req *handlerpb.Proce
 	resp := &handlerpb.ProcessEventBatchResponse{}
 	var evs []string
 	var rawEvs []string
+	poison := false
+	for _, e := range req.Events {
+		if te, ok := e.Event.(*handlerpb.Event_TimerExpired); ok && keyID(te.TimerExpired.Key) == 6 && floorMod(te.TimerExpired.Timestamp.GetSeconds(), 2) == 0 {
+			poison = true // this batch makes the handler fail (after the call has been recorded)
+		}
+	}
 	for _, e := range req.Events {
 		switch ev := e.Event.(type) {
 		case *handlerpb.Event_KeyedEvent:
@@ -1257,7 +1293,11 @@ func (h *recHandler) ProcessEventBatch(ctx context.Context, req *handlerpb.Proce
 		wmS, wmN = req.Watermark.Seconds, int64(req.Watermark.Nanos)
 	}
 	h.calls = append(h.calls, fmt.Sprintf("(%s, %s)", coqZZ(wmS, wmN), hx.CoqList(evs, "oev")))
-	h.raw = append(h.raw, map[string]any{"watermark": []int64{wmS, wmN}, "events": rawEvs})
+	h.raw = append(h.raw, map[string]any{"watermark": []int64{wmS, wmN}, "events": rawEvs, "failed": poison})
+	if poison {
+		h.nfail++
+		return nil, fmt.Errorf("scripted handler failure")
+	}
 	return resp, nil
 }
 func (h *recHandler) KeyEventBatch(ctx context.Context, events [][]byte) ([][]*handlerpb.KeyedEvent, error) {
@@ -1312,7 +1352,7 @@ func execOp(c *hx.Case, ops []opJ) (*hx.Result, error) {
 	nwm, ncalls := 0, 0
 	senders := map[int]bool{}
 	completed := map[int]bool{}
-	wmAboveEpoch, staleArmed := false, false
+	wmAboveEpoch, staleArmed, failArmed := false, false, false
 	latest := map[int]time.Time{}
 	for _, i := range ids {
 		latest[i] = time.Unix(0, 0)
@@ -1413,9 +1453,21 @@ func execOp(c *hx.Case, ops []opJ) (*hx.Result, error) {
 			time.Sleep(time.Millisecond)
 		}
 		if err != nil {
-			return nil, fmt.Errorf("HandleEvent: %v", err)
+			if !strings.Contains(err.Error(), "scripted handler failure") {
+				return nil, fmt.Errorf("HandleEvent: %v", err)
+			}
+			// expected: the handler failed on a batch; the operator hands the error back to the sender and goes on
+			if o.K == "wm" {
+				tags["handler_error_mid_advance"] = true
+				failArmed = true
+			}
 		}
 		s, raw := h.drain()
+		if o.K == "wm" && err == nil {
+			failArmed = false
+		} else if o.K != "wm" && failArmed && len(raw) > 0 {
+			tags["call_after_handler_error_before_next_wm"] = true
+		}
 		ncalls += len(raw)
 		if o.K == "wm" {
 			staleArmed = false
